@@ -45,6 +45,12 @@ type StressCase struct {
 	Reqs     []StressReq `json:"reqs"`
 	CBYields int         `json:"cb_yields"` // yields inside every collaborator call
 	AllMatch bool        `json:"all_match"` // the filter matches every block
+	// HashFails: the block-hash lookups with these ordinal numbers (0-based,
+	// counted over the whole case) fail once each, as a lookup does when the
+	// height is momentarily not available. A request may then be answered
+	// with an error, but it must be answered; without an error the report
+	// must be the reference one.
+	HashFails []int `json:"hash_fails,omitempty"`
 }
 
 func genStress(t *rapid.T) StressCase {
@@ -54,6 +60,9 @@ func genStress(t *rapid.T) StressCase {
 		return StressReq{Sel: kit.Uni(t, "sel", 400), Start: kit.Uni(t, "start", 5), Arg: kit.Uni(t, "arg", 30),
 			AfterFetches: kit.Pick(t, "after", []int{0, 0, 1, 2, 3, 5, 8, 13}), Yields: kit.Pick(t, "yields", []int{0, 0, 1, 10, 200})}
 	}), 2, 10).Draw(t, "reqs")
+	if kit.Uni(t, "hashfailp", 3) == 0 {
+		c.HashFails = rapid.SliceOfNDistinct(rapid.IntRange(0, 40), 1, 3, rapid.ID[int]).Draw(t, "hashfails")
+	}
 	return c
 }
 
@@ -71,6 +80,11 @@ func runStress(t *testing.T, c StressCase) (v kit.Verdict) {
 		}
 	}
 	var fetches atomic.Int64
+	var injected atomic.Int64
+	failAt := map[int64]bool{}
+	for _, k := range c.HashFails {
+		failAt[int64(k)] = true
+	}
 	byHash := map[chainhash.Hash]*kit.Node{}
 	for _, n := range path {
 		byHash[n.Hash] = n
@@ -82,8 +96,12 @@ func runStress(t *testing.T, c StressCase) (v kit.Verdict) {
 			return &headerfs.BlockStamp{Height: n.Height, Hash: n.Hash, Timestamp: n.Header.Timestamp}, nil
 		},
 		func(h int64) (*chainhash.Hash, error) {
-			fetches.Add(1)
+			k := fetches.Add(1) - 1
 			yield(c.CBYields)
+			if failAt[k] {
+				injected.Add(1)
+				return nil, fmt.Errorf("injected: no block hash for height %d at the moment", h)
+			}
 			if h < 0 || int(h) > tip {
 				return nil, fmt.Errorf("no block at height %d", h)
 			}
@@ -192,6 +210,10 @@ func runStress(t *testing.T, c StressCase) (v kit.Verdict) {
 	for i := range res {
 		v.Logf("%s -> %v (want %v)", desc[i], res[i].err, want[i])
 		if res[i].err != nil {
+			if injected.Load() > 0 {
+				v.Class("answered-with-error-after-injected-lookup-failure")
+				continue
+			}
 			v.Fail("C10/stress/request-error", "%s failed on a static, fully served chain: %v", desc[i], res[i].err)
 			return
 		}
@@ -207,6 +229,9 @@ func runStress(t *testing.T, c StressCase) (v kit.Verdict) {
 		v.Class("fate:%s", want[i].Kind)
 	}
 	v.Count("enqueued_mid_scan", int(midScan.Load()))
+	if injected.Load() > 0 {
+		v.Class("lookup-failure-injected")
+	}
 	v.Nontrivial = midScan.Load() > 0
 	return
 }
